@@ -61,20 +61,20 @@ Proof. intro n. destruct n as [|n]; [right|left]; reflexivity. Qed.
 
 Lemma ex_retry : forall a b a' b' p q, ex a b p -> ex a' b' q ->
   (guard p = true \/ nofail p = true) ->
-  ex (a + 1) (N.max (b + 1) (N.max b' a')) (Retry p q).
+  ex (a + 1) (N.max (b + 1) (N.max b' a')) (Retry p q Skip).
 Proof.
   intros a b a' b' p q [Ht Hc Hb Hg] [Ht' Hc' Hb' Hg'] Hgn.
   constructor; simpl.
   - rewrite Ht, Ht'. reflexivity.
-  - destruct (nofail p); lia.
-  - destruct (nofail p); lia.
+  - destruct (guard p); destruct (nofail p); lia.
+  - rewrite Ht. destruct (nofail p); lia.
   - destruct (guard p) eqn:Eg.
     + left. reflexivity.
     + destruct Hgn as [Hgn|Hgn]; [discriminate|]. rewrite Hgn.
-      destruct Hg as [Hg|Hg]; [discriminate|]. right. exact Hg.
+      destruct Hg as [Hg|Hg]; [discriminate|]. right. lia.
 Qed.
 
-Lemma ex_retry_polls : forall k, ex 2 2 (Retry (pollsN k) (pollsN k)).
+Lemma ex_retry_polls : forall k, ex 2 2 (Retry (pollsN k) (pollsN k) Skip).
 Proof.
   intro k. apply (ex_weaken (1 + 1) (N.max (1 + 1) (N.max 1 1))); [|lia|lia].
   apply ex_retry; [apply ex_pollsN|apply ex_pollsN|apply pollsN_guard_or_nofail].
@@ -255,30 +255,35 @@ Fixpoint failfree (p : prog) : bool :=
   | Skip | Poll => true | Fail => false
   | Seq p q => failfree p && failfree q
   | Try p q r => failfree p && failfree q && failfree r
-  | Retry p q => failfree p && failfree q
+  | Retry p q r => failfree p && failfree r   (* q runs only after an input error of p *)
   end.
 
-Lemma failfree_no_inerr : forall poll p s o s', failfree p = true ->
+Lemma failfree_no_inerr : forall poll p s o s', mono poll -> failfree p = true ->
   run poll p s = (o, s') -> o <> InErr.
 Proof.
-  intros poll p. induction p as [| | |p IHp q IHq|p IHp q IHq r IHr|p IHp q IHq];
-    intros s o s' Hf H; simpl in H, Hf; try discriminate.
+  intros poll p. induction p as [| | |p IHp q IHq|p IHp q IHq r IHr|p IHp q IHq r IHr];
+    intros s o s' Hm Hf H; simpl in H, Hf; try discriminate.
   - inversion H; subst. discriminate.
   - destruct (poll (polls s)); inversion H; subst; discriminate.
   - apply andb_prop in Hf. destruct Hf as [Hp Hq].
     destruct (run poll p s) as [o1 s1] eqn:E1. destruct (is_done o1).
-    + apply (IHq _ _ _ Hq H).
-    + inversion H; subst. apply (IHp _ _ _ Hp E1).
+    + apply (IHq _ _ _ Hm Hq H).
+    + inversion H; subst. apply (IHp _ _ _ Hm Hp E1).
   - apply andb_prop in Hf. destruct Hf as [Hf Hr]. apply andb_prop in Hf. destruct Hf as [Hp Hq].
     destruct (run poll p s) as [o1 s1] eqn:E1. destruct (is_done o1).
-    + apply (IHr _ _ _ Hr H).
-    + apply (IHq _ _ _ Hq H).
-  - apply andb_prop in Hf. destruct Hf as [Hp Hq].
-    destruct (run poll p s) as [o1 s1] eqn:E1. destruct (is_done o1).
-    + inversion H; subst. discriminate.
-    + destruct (poll (polls s1)).
-      * inversion H; subst. apply (IHp _ _ _ Hp E1).
-      * apply (IHq _ _ _ Hq H).
+    + apply (IHr _ _ _ Hm Hr H).
+    + apply (IHq _ _ _ Hm Hq H).
+  - apply andb_prop in Hf. destruct Hf as [Hp Hr].
+    destruct (run poll p s) as [o1 s1] eqn:E1. destruct (is_done o1) eqn:Ed.
+    + apply (IHr _ _ _ Hm Hr H).
+    + (* p failed: not with an input error, so with the context's; then the probe sees it *)
+      pose proof (IHp _ _ _ Hm Hp E1) as Hni.
+      destruct o1 as [|e1|]; [discriminate Ed| |congruence].
+      pose proof (ctxerr_late _ _ _ _ _ E1) as Hl.
+      assert (Hc1 : cancelled poll s1).
+      { apply (late_means_cancelled poll p s (CtxErr e1) s1 Hm E1). lia. }
+      unfold cancelled in Hc1. destruct (poll (polls s1)); [|congruence].
+      inversion H; subst. discriminate.
 Qed.
 
 Lemma failfree_seqs : forall l, (forall p, In p l -> failfree p = true) -> failfree (seqs l) = true.
@@ -294,8 +299,11 @@ Proof. intros p q Hp Hq. simpl. rewrite Hp, Hq. reflexivity. Qed.
 Lemma ff_try : forall p q r, failfree p = true -> failfree q = true -> failfree r = true ->
   failfree (Try p q r) = true.
 Proof. intros p q r Hp Hq Hr. simpl. rewrite Hp, Hq, Hr. reflexivity. Qed.
-Lemma ff_retry : forall p q, failfree p = true -> failfree q = true -> failfree (Retry p q) = true.
-Proof. intros p q Hp Hq. simpl. rewrite Hp, Hq. reflexivity. Qed.
+Lemma ff_retry : forall p q, failfree p = true -> failfree q = true -> failfree (Retry p q Skip) = true.
+Proof. intros p q Hp Hq. simpl. rewrite Hp. reflexivity. Qed.
+Lemma ff_retry3 : forall p q r, failfree p = true -> failfree r = true ->
+  failfree (Retry p q r) = true.
+Proof. intros p q r Hp Hr. simpl. rewrite Hp, Hr. reflexivity. Qed.
 
 Lemma failfree_pal : forall o, failfree (parse_and_load o) = true.
 Proof.
@@ -306,30 +314,26 @@ Proof.
 Qed.
 Lemma failfree_process_object : forall rx o, failfree (process_object rx o) = true.
 Proof.
-  intros rx o. unfold process_object. destruct rx; [|apply failfree_pal].
-  assert (Hr : failfree (Seq (Retry (pollsN (ok_ o)) (pollsN (ok_ o))) (pollsN (op o))) = true).
-  { apply ff_seq; [apply ff_retry; apply failfree_pollsN|apply failfree_pollsN]. }
-  apply ff_try; [unfold buffer_polls; apply ff_seq; [reflexivity|apply failfree_pollsN]|reflexivity|].
-  destruct (obig o); [exact Hr|]. unfold Swallow. apply ff_try; [exact Hr|reflexivity|reflexivity].
+  intros rx o. unfold process_object. apply ff_retry3; [apply failfree_pal|reflexivity].
 Qed.
 Lemma failfree_bypass : forall rx f, failfree (bypass rx f) = true.
 Proof.
   intros rx f. apply failfree_seqs. intros p Hp. apply in_map_iff in Hp.
-  destruct Hp as [i [Hi _]]. subst p. destruct i as [o|k]; simpl.
+  destruct Hp as [i [Hi _]]. subst p. destruct i as [o|k]; unfold bypass_item.
   - apply failfree_process_object.
-  - rewrite failfree_pollsN. reflexivity.
+  - apply ff_retry; apply failfree_pollsN.
 Qed.
 Lemma failfree_chain : forall rx f l, failfree (chain rx f l) = true.
 Proof.
   intros rx f l. induction l as [|x l IH]; [reflexivity|].
   destruct x as [k|o].
   - change (chain rx f (STable k :: l))
-      with (Seq Poll (Seq (Retry (pollsN k) (pollsN k)) (chain rx f l))).
+      with (Seq Poll (Seq (Retry (pollsN k) (pollsN k) Skip) (chain rx f l))).
     apply ff_seq; [reflexivity|]. apply ff_seq; [|exact IH].
     apply ff_retry; apply failfree_pollsN.
   - change (chain rx f (SStream o :: l))
-      with (Seq Poll (Try (parse_and_load o) (bypass rx f) (chain rx f l))).
-    apply ff_seq; [reflexivity|]. apply ff_try; [apply failfree_pal|apply failfree_bypass|exact IH].
+      with (Seq Poll (Retry (parse_and_load o) (bypass rx f) (chain rx f l))).
+    apply ff_seq; [reflexivity|]. apply ff_retry3; [apply failfree_pal|exact IH].
 Qed.
 Lemma failfree_tail : forall s, failfree (tail_prog s) = true.
 Proof.
@@ -359,114 +363,62 @@ Proof.
   apply ff_seq; [reflexivity|]. apply ff_seq; [apply failfree_chain|apply failfree_tail].
 Qed.
 
-(* ---- the late-poll bound outside the defect class ---- *)
+(* ---- the late-poll bound, for every shape ---- *)
 
-Lemma ex_bypass_strict : forall f, ex 2 2 (bypass false f).
+Lemma ex_fail : ex 0 0 Fail.
+Proof. constructor; simpl; [reflexivity|lia|lia|left; reflexivity]. Qed.
+
+Lemma ex_process_object : forall rx o, ex 3 3 (process_object rx o).
 Proof.
-  intro f. unfold bypass. apply ex_seqs; [lia|]. intros p Hp. apply in_map_iff in Hp.
+  intros rx o. unfold process_object.
+  apply (ex_weaken (2 + 1) (N.max (2 + 1) (N.max 0 0))); [|lia|lia].
+  apply ex_retry; [apply ex_pal|destruct rx; [exact ex_skip|exact ex_fail]|left; apply guard_pal].
+Qed.
+
+Lemma ex_bypass : forall rx f, ex 3 3 (bypass rx f).
+Proof.
+  intros rx f. unfold bypass. apply ex_seqs; [lia|]. intros p Hp. apply in_map_iff in Hp.
   destruct Hp as [i [Hi _]]. subst p. destruct i as [o|k]; simpl.
-  - apply ex_pal.
-  - apply ex_retry_polls.
+  - apply ex_process_object.
+  - apply (ex_weaken 2 2); [apply ex_retry_polls|lia|lia].
 Qed.
 
 Lemma chain_lc : forall rx f l, lc (chain rx f l) <= 1.
 Proof. intros rx f l. destruct l as [|x l]; [simpl; lia|]. destruct x; simpl; lia. Qed.
 
-Lemma chain_lb : forall rx f l, rx && has_stream l = false -> lb (chain rx f l) <= 4.
+Lemma nofail_pal : forall o, nofail (parse_and_load o) = false.
+Proof. reflexivity. Qed.
+
+Lemma chain_lb : forall rx f l, lb (chain rx f l) <= 4.
 Proof.
-  intros rx f l. induction l as [|x l IH]; intro Hd.
+  intros rx f l. induction l as [|x l IH].
   - simpl. lia.
   - pose proof (chain_lc rx f l) as Hcl.
     destruct x as [k|o].
-    + assert (Hd' : rx && has_stream l = false) by exact Hd.
-      specialize (IH Hd').
-      destruct (ex_retry_polls k) as [Ht Hc Hb Hg].
+    + destruct (ex_retry_polls k) as [Ht Hc Hb Hg].
       change (chain rx f (STable k :: l))
-        with (Seq Poll (Seq (Retry (pollsN k) (pollsN k)) (chain rx f l))).
-      remember (Retry (pollsN k) (pollsN k)) as r. remember (chain rx f l) as c.
+        with (Seq Poll (Seq (Retry (pollsN k) (pollsN k) Skip) (chain rx f l))).
+      remember (Retry (pollsN k) (pollsN k) Skip) as r. remember (chain rx f l) as c.
       simpl. rewrite Ht. destruct (guard r); lia.
-    + destruct rx; [simpl in Hd; discriminate|].
-      assert (Hd' : false && has_stream l = false) by reflexivity.
-      specialize (IH Hd').
-      destruct (ex_pal o) as [Ht Hc Hb _]. pose proof (guard_pal o) as Hgp.
-      destruct (ex_bypass_strict f) as [Htb Hcb Hbb _].
-      change (chain false f (SStream o :: l))
-        with (Seq Poll (Try (parse_and_load o) (bypass false f) (chain false f l))).
-      remember (parse_and_load o) as p. remember (bypass false f) as b. remember (chain false f l) as c.
-      simpl. rewrite Ht, Hgp. lia.
+    + destruct (ex_pal o) as [Ht Hc Hb _]. pose proof (guard_pal o) as Hgp.
+      pose proof (nofail_pal o) as Hnf.
+      destruct (ex_bypass rx f) as [Htb Hcb Hbb _].
+      change (chain rx f (SStream o :: l))
+        with (Seq Poll (Retry (parse_and_load o) (bypass rx f) (chain rx f l))).
+      remember (parse_and_load o) as p. remember (bypass rx f) as b. remember (chain rx f l) as c.
+      simpl. rewrite Ht, Hgp, Hnf. lia.
 Qed.
 
-Lemma read_lbc : forall s, repair_swallows s = false -> lbc (read_prog s) <= stage_bound.
+Lemma read_lbc : forall s, lbc (read_prog s) <= stage_bound.
 Proof.
-  intros s Hd. rewrite read_prog_eq. unfold repair_swallows in Hd.
-  pose proof (chain_lb (s_relaxed s) (s_file s) (s_sections s) Hd) as Hb.
+  intros s. rewrite read_prog_eq.
+  pose proof (chain_lb (s_relaxed s) (s_file s) (s_sections s)) as Hb.
   pose proof (chain_lc (s_relaxed s) (s_file s) (s_sections s)) as Hc.
   destruct (ex_tail s) as [Htt Htc Htb _].
   remember (tail_prog s) as t. remember (chain (s_relaxed s) (s_file s) (s_sections s)) as c.
   unfold lbc, stage_bound. destruct (s_prefail s); simpl.
   - destruct (tight c); destruct (guard c); lia.
   - destruct (tight c); destruct (guard c); lia.
-Qed.
-
-(* ---- the defect: the relaxed repair path swallows the context error once per object ---- *)
-
-Definition o1 : fobj := mkfo 0 0 0 false.
-
-Lemma bypass_swallows : forall e n a b, 1 <= a ->
-  run (flip_at (Some 1) e) (bypass true (repeat (FObj o1) n)) (mkst a b)
-  = (Done, mkst (a + N.of_nat n) (b + N.of_nat n)).
-Proof.
-  intros e n. induction n as [|n IH]; intros a b Ha.
-  - simpl. f_equal. f_equal; lia.
-  - change (bypass true (repeat (FObj o1) (S n)))
-      with (Seq (process_object true o1) (bypass true (repeat (FObj o1) n))).
-    remember (bypass true (repeat (FObj o1) n)) as rest.
-    simpl. assert (Hle : (1 <=? a) = true) by (apply N.leb_le; exact Ha).
-    rewrite Hle. simpl. subst rest. unfold tick_late. simpl.
-    rewrite IH; [|lia]. f_equal. f_equal; lia.
-Qed.
-
-Definition bad_shape (n : nat) : shape :=
-  mkshape true false false [SStream o1] (repeat (FObj o1) n) 0 [] [EFree].
-
-Lemma run_Seq : forall poll p q s, run poll (Seq p q) s =
-  let (o, s1) := run poll p s in if is_done o then run poll q s1 else (o, s1).
-Proof. reflexivity. Qed.
-Lemma run_Try : forall poll p q r s, run poll (Try p q r) s =
-  let (o, s1) := run poll p s in if is_done o then run poll r s1 else run poll q s1.
-Proof. reflexivity. Qed.
-
-Lemma bad_pal : forall e a b, 1 <= a ->
-  run (flip_at (Some 1) e) (parse_and_load o1) (mkst a b) = (CtxErr e, mkst (a + 1) (b + 1)).
-Proof.
-  intros e a b Ha. simpl. assert (Hle : (1 <=? a) = true) by (apply N.leb_le; exact Ha).
-  rewrite Hle. reflexivity.
-Qed.
-
-Lemma bad_tail : forall e n a b, 1 <= a ->
-  run (flip_at (Some 1) e) (tail_prog (bad_shape n)) (mkst a b) = (CtxErr e, mkst (a + 1) (b + 1)).
-Proof.
-  intros e n a b Ha. simpl. assert (Hle : (1 <=? a) = true) by (apply N.leb_le; exact Ha).
-  rewrite Hle. reflexivity.
-Qed.
-
-Lemma bad_shape_late : forall e n,
-  read (flip_at (Some 1) e) (bad_shape n) = (CtxErr e, mkst (N.of_nat n + 3) (N.of_nat n + 2)).
-Proof.
-  intros e n. unfold read. rewrite read_prog_eq.
-  change (s_prefail (bad_shape n)) with false.
-  change (chain (s_relaxed (bad_shape n)) (s_file (bad_shape n)) (s_sections (bad_shape n)))
-    with (Seq Poll (Try (parse_and_load o1) (bypass true (repeat (FObj o1) n)) Skip)).
-  rewrite run_Seq. change (run (flip_at (Some 1) e) Skip st0) with (Done, st0).
-  cbv iota beta. change (is_done Done) with true. cbv iota.
-  rewrite run_Seq. rewrite run_Seq.
-  change (run (flip_at (Some 1) e) Poll st0) with (Done, mkst 1 0).
-  cbv iota beta. change (is_done Done) with true. cbv iota.
-  rewrite run_Try. rewrite bad_pal; [|lia].
-  cbv iota beta. change (is_done (CtxErr e)) with false. cbv iota.
-  rewrite bypass_swallows; [|lia].
-  cbv iota beta. change (is_done Done) with true. cbv iota.
-  rewrite bad_tail; [|lia]. f_equal. f_equal; lia.
 Qed.
 
 (* ---- the property-level statements ---- *)
@@ -490,30 +442,36 @@ Qed.
 Lemma cancel_any_time : forall s poll e, mono poll ->
   (forall i e', poll i = Some e' -> e' = e) -> s_entries s <> [] ->
   forall o st, read poll s = (o, st) ->
-  (o = Done /\ late st = 0) \/ o = CtxErr e \/ (o = InErr /\ s_prefail s = true).
+  (o = Done /\ late st = 0) \/ o = CtxErr e \/ (o = InErr /\ s_prefail s = true /\ st = st0).
 Proof.
-  intros s poll e Hm Hone Hne o st H. unfold read in H. destruct o as [|e'|].
-  - left. split; [reflexivity|].
-    apply (tight_sound poll (read_prog s) st0 st Hm (tight_read s Hne) H).
-  - right. left. destruct (ctxerr_from_poll poll _ _ _ _ H) as [i Hi].
-    rewrite (Hone i e' Hi). reflexivity.
-  - right. right. split; [reflexivity|].
-    destruct (s_prefail s) eqn:Ep; [reflexivity|]. exfalso.
-    apply (failfree_no_inerr poll (read_prog s) st0 InErr st (failfree_read s Ep) H). reflexivity.
+  intros s poll e Hm Hone Hne o st H. unfold read in H.
+  destruct (s_prefail s) eqn:Ep.
+  - rewrite read_prog_eq in H. rewrite Ep in H. simpl in H. inversion H; subst.
+    right. right. split; [reflexivity|split; reflexivity].
+  - destruct o as [|e'|].
+    + left. split; [reflexivity|].
+      apply (tight_sound poll (read_prog s) st0 st Hm (tight_read s Hne) H).
+    + right. left. destruct (ctxerr_from_poll poll _ _ _ _ H) as [i Hi].
+      rewrite (Hone i e' Hi). reflexivity.
+    + exfalso.
+      apply (failfree_no_inerr poll (read_prog s) st0 InErr st Hm (failfree_read s Ep) H). reflexivity.
 Qed.
 
-Lemma late_polls_bounded_partial : forall s poll, mono poll -> repair_swallows s = false ->
+(* the probe: whatever error is pending, a cancelled context makes the fallback decision
+   return the CONTEXT's error *)
+Lemma probe_returns_context_error : forall poll p q r s o s1 e,
+  run poll p s = (o, s1) -> o <> Done -> poll (polls s1) = Some e ->
+  run poll (Retry p q r) s = (CtxErr e, tick_late s1).
+Proof.
+  intros poll p q r s o s1 e E Hnd Hp. simpl. rewrite E.
+  destruct o; [congruence| |]; simpl; rewrite Hp; reflexivity.
+Qed.
+
+Lemma late_polls_bounded : forall s poll, mono poll ->
   late (snd (read poll s)) <= stage_bound.
 Proof.
-  intros s poll Hm Hd. unfold read. destruct (run poll (read_prog s) st0) as [o st] eqn:E.
+  intros s poll Hm. unfold read. destruct (run poll (read_prog s) st0) as [o st] eqn:E.
   pose proof (late_bound_lbc poll (read_prog s) st0 o st Hm E) as H.
-  pose proof (read_lbc s Hd) as Hb. simpl in *. lia.
+  pose proof (read_lbc s) as Hb. simpl in *. lia.
 Qed.
 
-Lemma late_polls_refuted : forall e n, exists s k,
-  repair_swallows s = true /\ mono (flip_at (Some k) e) /\
-  N.of_nat n < late (snd (read (flip_at (Some k) e) s)).
-Proof.
-  intros e n. exists (bad_shape n), 1. split; [reflexivity|]. split; [apply flip_at_mono|].
-  rewrite bad_shape_late. simpl. lia.
-Qed.
